@@ -413,8 +413,13 @@ func c20FreshStructValue(v ssa.Value, l *Loop, avoid *types.Var) bool {
 				return false
 			}
 		case *ssa.DebugRef:
+		case *ssa.Store:
+			// a whole-value store of a value that is itself fresh (the result variable of an inlined constructor helper)
+			if r.Addr != ssa.Value(a) || r.Val == v || !l.Blocks[r.Block()] || !c20FreshStructValue(r.Val, l, avoid) {
+				return false
+			}
 		default:
-			return false // whole-value store, call argument, ...
+			return false // call argument, ...
 		}
 	}
 	return true
@@ -620,6 +625,43 @@ type c20RetWalk struct {
 	Ready  *ssa.Select // assumed to have delivered index 0 (may be nil)
 	// OnInstr (optional) sees every instruction on the paths walked; a non-empty answer stops the walk and is the verdict.
 	OnInstr func(ssa.Instruction) string
+	// Fourth round:
+	True     []ssa.Value                         // boolean values assumed true on every path
+	Init     []Guard                             // branch outcomes known when the walk starts (nil-ness facts are taken from them)
+	Learn    bool                                // learn nil-ness facts from the outcome of every undecided `x == nil` / `x != nil` branch taken
+	StopEdge func(from, to *ssa.BasicBlock) bool // edges the walk does not take
+	RetNil   int                                 // set before onReturn is called: nil-ness of the returned value on this path (c20NilUnknown / c20IsNil / c20NonNil)
+	facts    c20Facts                            // facts of the path being walked (valid inside callbacks)
+}
+
+// c20Facts: nil-ness learnt along a path, keyed by the value as resolved on that path.
+type c20Facts map[ssa.Value]int
+
+func (f c20Facts) with(k ssa.Value, n int) c20Facts {
+	nf := make(c20Facts, len(f)+1)
+	for k0, v0 := range f {
+		nf[k0] = v0
+	}
+	nf[k] = n
+	return nf
+}
+
+// learn adds what the outcome of cond says about the nil-ness of a value.
+func (w *c20RetWalk) learn(b c20Bind, f c20Facts, cond ssa.Value, outcome bool) c20Facts {
+	if r := w.resolve(b, cond); r != nil {
+		cond = r
+	}
+	x, y, op, ok := CmpFact(cond, outcome)
+	if !ok || !c20IsNilConst(w.resolve(b, y)) {
+		return f
+	}
+	switch op {
+	case token.EQL:
+		return f.with(w.resolve(b, x), c20IsNil)
+	case token.NEQ:
+		return f.with(w.resolve(b, x), c20NonNil)
+	}
+	return f
 }
 
 // c20Bind: what is known along a path - a phi is bound to the operand it received; a local variable that lives in
@@ -688,6 +730,9 @@ func (w *c20RetWalk) nilness(b c20Bind, v ssa.Value) int {
 	if w.NonNil != nil && r == w.NonNil {
 		return c20NonNil
 	}
+	if n, ok := w.facts[r]; ok {
+		return n
+	}
 	switch x := r.(type) {
 	case *ssa.Const:
 		if x.Value == nil {
@@ -713,6 +758,11 @@ func (w *c20RetWalk) selIndex(b c20Bind, v ssa.Value) bool {
 
 func (w *c20RetWalk) evalCond(b c20Bind, c ssa.Value) (bool, bool) {
 	r := w.resolve(b, c)
+	for _, t := range w.True {
+		if r == t || c == t {
+			return true, true
+		}
+	}
 	switch x := r.(type) {
 	case *ssa.Const:
 		if IsConstBool(x, true) {
@@ -760,12 +810,15 @@ func (w *c20RetWalk) Run(blk, from *ssa.BasicBlock, idx int, onReturn func(ret *
 	}
 	seen := map[string]bool{}
 	states, why := 0, ""
-	var walk func(blk, from *ssa.BasicBlock, idx int, b c20Bind)
-	walk = func(blk, from *ssa.BasicBlock, idx int, b c20Bind) {
+	var walk func(blk, from *ssa.BasicBlock, idx int, b c20Bind, f c20Facts)
+	walk = func(blk, from *ssa.BasicBlock, idx int, b c20Bind, f c20Facts) {
 		if why != "" {
 			return
 		}
 		if from != nil {
+			if w.StopEdge != nil && w.StopEdge(from, blk) {
+				return
+			}
 			nb := c20Bind{}
 			for k, v := range b {
 				nb[k] = v
@@ -787,6 +840,9 @@ func (w *c20RetWalk) Run(blk, from *ssa.BasicBlock, idx int, onReturn func(ret *
 			for k, v := range b {
 				ks = append(ks, k.Name()+"="+name(v))
 			}
+			for k, n := range f {
+				ks = append(ks, fmt.Sprint("fact:", name(k), "=", n))
+			}
 			sort.Strings(ks)
 			key := fmt.Sprint(blk.Index, ks)
 			if seen[key] {
@@ -799,6 +855,18 @@ func (w *c20RetWalk) Run(blk, from *ssa.BasicBlock, idx int, onReturn func(ret *
 			}
 		}
 		for i := idx; i < len(blk.Instrs); i++ {
+			if v, isVal := blk.Instrs[i].(ssa.Value); isVal {
+				if _, stale := f[v]; stale { // the value is computed anew: what was learnt about its previous incarnation is void
+					nf := c20Facts{}
+					for k0, v0 := range f {
+						if k0 != v {
+							nf[k0] = v0
+						}
+					}
+					f = nf
+				}
+			}
+			w.facts = f
 			if w.OnInstr != nil {
 				if msg := w.OnInstr(blk.Instrs[i]); msg != "" {
 					why = msg
@@ -818,8 +886,10 @@ func (w *c20RetWalk) Run(blk, from *ssa.BasicBlock, idx int, onReturn func(ret *
 				}
 			case *ssa.Return:
 				var got ssa.Value
+				w.RetNil = c20NilUnknown
 				if len(x.Results) > 0 {
 					got = w.resolve(b, x.Results[0])
+					w.RetNil = w.nilness(b, x.Results[0])
 				}
 				if msg := onReturn(x, got); msg != "" {
 					why = msg
@@ -828,22 +898,31 @@ func (w *c20RetWalk) Run(blk, from *ssa.BasicBlock, idx int, onReturn func(ret *
 			case *ssa.If:
 				if val, known := w.evalCond(b, x.Cond); known {
 					if val {
-						walk(blk.Succs[0], blk, 0, b)
+						walk(blk.Succs[0], blk, 0, b, f)
 					} else {
-						walk(blk.Succs[1], blk, 0, b)
+						walk(blk.Succs[1], blk, 0, b, f)
 					}
+					return
+				}
+				if w.Learn && len(blk.Succs) == 2 && blk.Succs[0] != blk.Succs[1] {
+					walk(blk.Succs[0], blk, 0, b, w.learn(b, f, x.Cond, true))
+					walk(blk.Succs[1], blk, 0, b, w.learn(b, f, x.Cond, false))
 					return
 				}
 			}
 		}
 		for _, s := range blk.Succs {
-			walk(s, blk, 0, b)
+			walk(s, blk, 0, b, f)
 		}
 	}
 	if from != nil {
 		idx = 0
 	}
-	walk(blk, from, idx, c20Bind{})
+	f0 := c20Facts{}
+	for _, g := range w.Init {
+		f0 = w.learn(c20Bind{}, f0, g.Cond, g.True)
+	}
+	walk(blk, from, idx, c20Bind{}, f0)
 	return why
 }
 
@@ -973,4 +1052,577 @@ func c20ReturnLeaves(ret *ssa.Return) []c20RetLeaf {
 	}
 	walk(ret.Results, append([]Guard{}, Guards(ret.Block())...), 0)
 	return out
+}
+
+// ---------------------------------------------------------------------------
+// Fourth round: the result holder (Experiment.Trials) has exactly one slot per executed trial.
+//
+// Execute records trial `run` at e.Trials[run] and runs NumRuns trials of the options it finds in its context. It
+// allocates the holder only when the caller passed none. So "every trial's result is recorded, one per run" needs
+//   (a) inside Execute: whatever Execute stores into e.Trials is make(Trials, <the trial loop's bound>), stored before
+//       the first trial (or only while the holder is still nil), and a nil holder never reaches the recording store;
+//   (b) at every caller that hands a pre-sized holder over: the holder is make(Trials, opts.NumRuns) of the very options
+//       object the call's context carries, and NumRuns is not written between that read and the call (otherwise the
+//       holder has phantom empty trials, or the recording store runs out of range after the trial was evaluated).
+// (b) is decided over the caller's "family" (the function and the function literals nested in it): variables shared
+// with closures are memory cells; an instruction inside a closure is ordered relative to its parent's code by the
+// places where the closure is called / started.
+
+// c20Family: fn's outermost enclosing function and every function literal nested in it.
+func c20Family(fn *ssa.Function) []*ssa.Function {
+	for fn.Parent() != nil {
+		fn = fn.Parent()
+	}
+	var out []*ssa.Function
+	var add func(f *ssa.Function)
+	add = func(f *ssa.Function) {
+		out = append(out, f)
+		for _, a := range f.AnonFuncs {
+			add(a)
+		}
+	}
+	add(fn)
+	return out
+}
+
+// c20ClosureOf: the MakeClosure instruction that creates fn in its parent (nil when fn is not a literal or is never closed over).
+func c20ClosureOf(fn *ssa.Function) *ssa.MakeClosure {
+	par := fn.Parent()
+	if par == nil {
+		return nil
+	}
+	var mc *ssa.MakeClosure
+	Instrs(par, func(_ *ssa.BasicBlock, _ int, in ssa.Instruction) {
+		if m, ok := in.(*ssa.MakeClosure); ok && m.Fn == ssa.Value(fn) && mc == nil {
+			mc = m
+		}
+	})
+	return mc
+}
+
+// c20CellOf: the local variable (Alloc) an address denotes, looking through the free variables of closures.
+func c20CellOf(addr ssa.Value) *ssa.Alloc {
+	for depth := 0; depth < 6; depth++ {
+		switch a := addr.(type) {
+		case *ssa.Alloc:
+			return a
+		case *ssa.FreeVar:
+			fn := a.Parent()
+			mc := c20ClosureOf(fn)
+			if mc == nil {
+				return nil
+			}
+			found := false
+			for i, fv := range fn.FreeVars {
+				if fv == a && i < len(mc.Bindings) {
+					addr, found = mc.Bindings[i], true
+				}
+			}
+			if !found {
+				return nil
+			}
+		default:
+			return nil
+		}
+	}
+	return nil
+}
+
+// c20Aliases: every SSA value that is the address of the cell (the Alloc and the free variables bound to it).
+func c20Aliases(cell *ssa.Alloc) []ssa.Value {
+	out := []ssa.Value{cell}
+	for i := 0; i < len(out); i++ {
+		refs := out[i].Referrers()
+		if refs == nil {
+			continue
+		}
+		for _, ref := range *refs {
+			mc, ok := ref.(*ssa.MakeClosure)
+			if !ok {
+				continue
+			}
+			fn, ok := mc.Fn.(*ssa.Function)
+			if !ok {
+				continue
+			}
+			for j, b := range mc.Bindings {
+				if b == out[i] && j < len(fn.FreeVars) {
+					out = append(out, fn.FreeVars[j])
+				}
+			}
+		}
+	}
+	return out
+}
+
+// c20CellStores: the stores that assign the whole cell.
+func c20CellStores(cell *ssa.Alloc) []*ssa.Store {
+	var out []*ssa.Store
+	for _, a := range c20Aliases(cell) {
+		if a.Referrers() == nil {
+			continue
+		}
+		for _, ref := range *a.Referrers() {
+			if st, ok := ref.(*ssa.Store); ok && st.Addr == a {
+				out = append(out, st)
+			}
+		}
+	}
+	return out
+}
+
+// c20Origin follows a value through type changes and through loads of local variables that are assigned exactly once
+// (in the function or any closure sharing the variable) to the value they hold. A variable assigned more than once is
+// its own origin (the cell).
+func c20Origin(v ssa.Value) ssa.Value {
+	for depth := 0; depth < 8; depth++ {
+		switch x := v.(type) {
+		case *ssa.ChangeType:
+			v = x.X
+			continue
+		case *ssa.UnOp:
+			if x.Op != token.MUL {
+				return v
+			}
+			cell := c20CellOf(x.X)
+			if cell == nil {
+				return v
+			}
+			sts := c20CellStores(cell)
+			if len(sts) != 1 {
+				return cell
+			}
+			v = sts[0].Val
+			continue
+		}
+		return v
+	}
+	return v
+}
+
+// c20Reach: instruction b can execute after instruction a in their common function.
+func c20Reach(a, b ssa.Instruction) bool { return c20ReachAvoiding(a, b, nil) }
+
+// c20ReachAvoiding: b can execute after a on a path (of their common function) that executes none of `avoid` in between.
+func c20ReachAvoiding(a, b ssa.Instruction, avoid map[ssa.Instruction]bool) bool {
+	// scan returns true when b is met in blk from index i on; cut=true when an avoided instruction ends the scan
+	scan := func(blk *ssa.BasicBlock, i int) (hit, cut bool) {
+		for ; i < len(blk.Instrs); i++ {
+			if blk.Instrs[i] == b {
+				return true, false
+			}
+			if avoid[blk.Instrs[i]] {
+				return false, true
+			}
+		}
+		return false, false
+	}
+	hit, cut := scan(a.Block(), instrIndex(a)+1)
+	if hit {
+		return true
+	}
+	if cut {
+		return false
+	}
+	seen := map[*ssa.BasicBlock]bool{}
+	stack := append([]*ssa.BasicBlock{}, a.Block().Succs...)
+	for len(stack) > 0 {
+		blk := stack[len(stack)-1]
+		stack = stack[:len(stack)-1]
+		if seen[blk] {
+			continue
+		}
+		seen[blk] = true
+		hit, cut := scan(blk, 0)
+		if hit {
+			return true
+		}
+		if !cut {
+			stack = append(stack, blk.Succs...)
+		}
+	}
+	return false
+}
+
+// c20Project: the instructions of function h (an ancestor of in's function, or that function itself) at which `in`
+// executes: itself, or the places where the closure that contains it is called or started. ok=false when the closure is
+// used in any other way (stored, passed on, deferred): its time of execution is then not known.
+func c20Project(in ssa.Instruction, h *ssa.Function) ([]ssa.Instruction, bool) {
+	fn := in.Parent()
+	if fn == h {
+		return []ssa.Instruction{in}, true
+	}
+	mc := c20ClosureOf(fn)
+	if mc == nil || mc.Referrers() == nil {
+		return nil, false
+	}
+	var out []ssa.Instruction
+	for _, ref := range *mc.Referrers() {
+		switch x := ref.(type) {
+		case *ssa.DebugRef:
+		case *ssa.Call:
+			if x.Call.Value != ssa.Value(mc) {
+				return nil, false
+			}
+			s, ok := c20Project(x, h)
+			if !ok {
+				return nil, false
+			}
+			out = append(out, s...)
+		case *ssa.Go:
+			if x.Call.Value != ssa.Value(mc) {
+				return nil, false
+			}
+			s, ok := c20Project(x, h)
+			if !ok {
+				return nil, false
+			}
+			out = append(out, s...)
+		default:
+			return nil, false
+		}
+	}
+	return out, len(out) > 0
+}
+
+func c20Chain(fn *ssa.Function) []*ssa.Function {
+	var out []*ssa.Function
+	for ; fn != nil; fn = fn.Parent() {
+		out = append(out, fn)
+	}
+	return out
+}
+
+// c20MayPrecede: a can execute before b (both in functions of one family): decided in their closest common enclosing
+// function on the places where each of them executes. known=false: a closure involved has no known time of execution.
+func c20MayPrecede(a, b ssa.Instruction) (may, known bool) { return c20MayPrecedeAvoiding(a, b, nil) }
+
+// c20MayPrecedeAvoiding: as c20MayPrecede, on a path that executes none of `avoid` in between (only avoided
+// instructions that lie in the common enclosing function itself cut a path).
+func c20MayPrecedeAvoiding(a, b ssa.Instruction, avoid map[ssa.Instruction]bool) (may, known bool) {
+	var h *ssa.Function
+	cb := c20Chain(b.Parent())
+outer:
+	for _, f := range c20Chain(a.Parent()) {
+		for _, g := range cb {
+			if f == g {
+				h = f
+				break outer
+			}
+		}
+	}
+	if h == nil {
+		return false, false
+	}
+	as, ok1 := c20Project(a, h)
+	bs, ok2 := c20Project(b, h)
+	if !ok1 || !ok2 {
+		return false, false
+	}
+	for _, x := range as {
+		for _, y := range bs {
+			if x == y || c20ReachAvoiding(x, y, avoid) {
+				return true, true
+			}
+		}
+	}
+	return false, true
+}
+
+// c20FieldWriter: fn, or a repository function it calls statically (closures it creates included), stores to field fld
+// of a struct that is not a fresh local, or overwrites a whole value of the struct type that owns fld through a pointer.
+// Dynamic calls are not followed.
+func c20FieldWriter(fn *ssa.Function, fld *types.Var, owner types.Type, memo map[*ssa.Function]bool) bool {
+	if fn == nil || fn.Blocks == nil || !InRepo(fn) {
+		return false
+	}
+	if v, ok := memo[fn]; ok {
+		return v
+	}
+	memo[fn] = false
+	res := false
+	Instrs(fn, func(_ *ssa.BasicBlock, _ int, in ssa.Instruction) {
+		if res {
+			return
+		}
+		if c20WritesFieldAt(in, fld, owner) {
+			res = true
+			return
+		}
+		switch x := in.(type) {
+		case ssa.CallInstruction:
+			if c20FieldWriter(x.Common().StaticCallee(), fld, owner, memo) {
+				res = true
+			}
+		case *ssa.MakeClosure:
+			if f, ok := x.Fn.(*ssa.Function); ok && c20FieldWriter(f, fld, owner, memo) {
+				res = true
+			}
+		}
+	})
+	memo[fn] = res
+	return res
+}
+
+// c20WritesFieldAt: the instruction itself stores to fld, or overwrites a whole value of fld's struct type through a
+// pointer that is not a local variable.
+func c20WritesFieldAt(in ssa.Instruction, fld *types.Var, owner types.Type) bool {
+	st, ok := in.(*ssa.Store)
+	if !ok {
+		return false
+	}
+	if StoredField(st) == fld {
+		return true
+	}
+	if _, isLocal := st.Addr.(*ssa.Alloc); !isLocal && types.Identical(deref(st.Addr.Type()), owner) {
+		return true
+	}
+	return false
+}
+
+// c20HolderDef: one value that can become the Trials field of an experiment variable.
+type c20HolderDef struct {
+	Val ssa.Value       // nil: the field is left at its zero value
+	At  ssa.Instruction // the store
+	Why string          // non-empty: the definition cannot be read off the code
+}
+
+// c20HolderDefs: every definition of field fld of the struct variable `cell`: field stores through any alias of the
+// variable, whole-value stores of a composite literal (its field stores, or the zero value when it has none), and
+// anything else that can write the field (reported through Why).
+func c20HolderDefs(cell *ssa.Alloc, fld *types.Var) []c20HolderDef {
+	var out []c20HolderDef
+	fieldDefs := func(base ssa.Value) (defs []c20HolderDef, clean bool) {
+		clean = true
+		if base.Referrers() == nil {
+			return nil, true
+		}
+		for _, ref := range *base.Referrers() {
+			fa, ok := ref.(*ssa.FieldAddr)
+			if !ok || fa.X != base || fieldOf(fa.X.Type(), fa.Field) != fld || fa.Referrers() == nil {
+				continue
+			}
+			for _, rr := range *fa.Referrers() {
+				switch y := rr.(type) {
+				case *ssa.Store:
+					if y.Addr == ssa.Value(fa) {
+						defs = append(defs, c20HolderDef{Val: y.Val, At: y})
+					} else {
+						clean = false
+					}
+				case *ssa.UnOp, *ssa.DebugRef:
+				default:
+					clean = false
+				}
+			}
+		}
+		return defs, clean
+	}
+	// tempDefs: the definitions of the field in a temporary that is copied as a whole into the variable: a composite
+	// literal built field by field (no store of the field: zero value), possibly itself assigned as a whole from another
+	// such temporary (the result variable of an inlined helper). Only field stores, whole-value stores and loads may touch it.
+	var tempDefs func(tmp *ssa.Alloc, at ssa.Instruction, depth int) ([]c20HolderDef, string)
+	tempDefs = func(tmp *ssa.Alloc, at ssa.Instruction, depth int) ([]c20HolderDef, string) {
+		if depth > 4 || tmp.Referrers() == nil {
+			return nil, "the variable is copied through too many temporaries"
+		}
+		var whole []*ssa.Store
+		for _, tr := range *tmp.Referrers() {
+			switch z := tr.(type) {
+			case *ssa.FieldAddr, *ssa.DebugRef:
+			case *ssa.UnOp:
+				if z.Op != token.MUL {
+					return nil, "the variable is copied from a temporary that is not a plain composite literal"
+				}
+			case *ssa.Store:
+				if z.Addr != ssa.Value(tmp) {
+					return nil, "the variable is copied from a temporary whose address is stored"
+				}
+				whole = append(whole, z)
+			default:
+				return nil, "the variable is copied from a temporary that is not a plain composite literal"
+			}
+		}
+		d, clean := fieldDefs(tmp)
+		if !clean {
+			return nil, "the variable is copied from a temporary whose field address is taken"
+		}
+		if len(whole) == 0 {
+			if len(d) == 0 {
+				d = append(d, c20HolderDef{At: at})
+			}
+			return d, ""
+		}
+		for _, ws := range whole {
+			switch v := ws.Val.(type) {
+			case *ssa.Const:
+				d = append(d, c20HolderDef{At: ws})
+			case *ssa.UnOp:
+				src, isAlloc := v.X.(*ssa.Alloc)
+				if v.Op != token.MUL || !isAlloc || src == tmp {
+					return nil, "the variable is copied from " + v.String()
+				}
+				dd, why := tempDefs(src, ws, depth+1)
+				if why != "" {
+					return nil, why
+				}
+				d = append(d, dd...)
+			default:
+				return nil, "the variable is copied from " + v.String()
+			}
+		}
+		return d, ""
+	}
+	for _, a := range c20Aliases(cell) {
+		defs, clean := fieldDefs(a)
+		out = append(out, defs...)
+		if !clean {
+			out = append(out, c20HolderDef{Why: "the address of the holder field is taken"})
+		}
+		if a.Referrers() == nil {
+			continue
+		}
+		for _, ref := range *a.Referrers() {
+			st, ok := ref.(*ssa.Store)
+			if !ok || st.Addr != a {
+				continue
+			}
+			switch v := st.Val.(type) {
+			case *ssa.Const:
+				out = append(out, c20HolderDef{At: st}) // zero value
+			case *ssa.UnOp:
+				tmp, isAlloc := v.X.(*ssa.Alloc)
+				if v.Op != token.MUL || !isAlloc || tmp == cell {
+					out = append(out, c20HolderDef{At: st, Why: "the variable is copied from " + v.String()})
+					continue
+				}
+				d, why := tempDefs(tmp, st, 0)
+				if why != "" {
+					out = append(out, c20HolderDef{At: st, Why: why})
+					continue
+				}
+				out = append(out, d...)
+			default:
+				out = append(out, c20HolderDef{At: st, Why: "the variable is assigned from " + v.String()})
+			}
+		}
+	}
+	return out
+}
+
+// c20ErrorByConstruction: the value is a non-nil error whatever path produced it: the result of Err() of a context
+// (Execute reads it only after the Done channel was found ready - generation.ctx.returns-err), a concrete value wrapped
+// into the interface, the result of errors.New / fmt.Errorf and the like, or a package-level Err… variable.
+func c20ErrorByConstruction(v ssa.Value) bool {
+	for {
+		ct, ok := v.(*ssa.ChangeType)
+		if !ok {
+			break
+		}
+		v = ct.X
+	}
+	switch x := v.(type) {
+	case *ssa.MakeInterface:
+		return true
+	case *ssa.Call:
+		if x.Call.IsInvoke() {
+			return x.Call.Method.Name() == "Err"
+		}
+		if f := x.Call.StaticCallee(); f != nil && f.Pkg != nil {
+			switch f.Pkg.Pkg.Path() + "." + f.Name() {
+			case "errors.New", "fmt.Errorf", "errors.Join":
+				return true
+			}
+		}
+	case *ssa.UnOp:
+		if g, ok := x.X.(*ssa.Global); ok && x.Op == token.MUL {
+			return len(g.Name()) > 3 && g.Name()[:3] == "Err"
+		}
+	}
+	return false
+}
+
+// c20Strip looks through type changes and phis whose edges all carry the same value.
+func c20Strip(v ssa.Value) ssa.Value {
+	for depth := 0; depth < 8; depth++ {
+		switch x := v.(type) {
+		case *ssa.ChangeType:
+			v = x.X
+			continue
+		case *ssa.Phi:
+			var only ssa.Value
+			same := true
+			for _, e := range x.Edges {
+				if only == nil {
+					only = e
+				} else if only != e {
+					same = false
+				}
+			}
+			if same && only != nil {
+				v = only
+				continue
+			}
+		}
+		return v
+	}
+	return v
+}
+
+// c20AppendsRecord: the store `X.Generations = append(Y.Generations, elems...)` has X and Y both the trial variable T
+// and appends exactly one element, the content of the record variable G.
+func c20AppendsRecord(st *ssa.Store, T, G *ssa.Alloc) (bool, string) {
+	fa, ok := st.Addr.(*ssa.FieldAddr)
+	if !ok || c20AllocOf(fa.X) != T {
+		return false, "the result is not stored into the recorded trial"
+	}
+	call, ok := c20Strip(st.Val).(*ssa.Call)
+	if !ok || len(call.Call.Args) != 2 {
+		return false, "the value stored is not an append"
+	}
+	if bi, isB := call.Call.Value.(*ssa.Builtin); !isB || bi.Name() != "append" {
+		return false, "the value stored is not an append"
+	}
+	base, ok := c20Strip(call.Call.Args[0]).(*ssa.UnOp)
+	if !ok || base.Op != token.MUL {
+		return false, "the slice appended to is not the trial's Generations"
+	}
+	bfa, ok := base.X.(*ssa.FieldAddr)
+	if !ok || c20AllocOf(bfa.X) != T || fieldOf(bfa.X.Type(), bfa.Field) != fieldOf(fa.X.Type(), fa.Field) {
+		return false, "the slice appended to is not the Generations of the recorded trial"
+	}
+	sl, ok := c20Strip(call.Call.Args[1]).(*ssa.Slice)
+	if !ok {
+		return false, "the appended elements are not a literal argument list"
+	}
+	arr, ok := sl.X.(*ssa.Alloc)
+	if !ok || arr.Referrers() == nil {
+		return false, "the appended elements are not a literal argument list"
+	}
+	at, isArr := deref(arr.Type()).Underlying().(*types.Array)
+	if !isArr || at.Len() != 1 {
+		return false, "not exactly one element is appended"
+	}
+	found := false
+	for _, ref := range *arr.Referrers() {
+		ia, isIA := ref.(*ssa.IndexAddr)
+		if !isIA || ia.Referrers() == nil {
+			continue
+		}
+		for _, rr := range *ia.Referrers() {
+			es, isSt := rr.(*ssa.Store)
+			if !isSt || es.Addr != ssa.Value(ia) {
+				continue
+			}
+			ld, isLd := c20Strip(es.Val).(*ssa.UnOp)
+			if !isLd || ld.Op != token.MUL || c20AllocOf(ld.X) != G {
+				return false, "the appended element is not the content of the record handed to the evaluator"
+			}
+			found = true
+		}
+	}
+	if !found {
+		return false, "the appended element cannot be identified"
+	}
+	return true, ""
 }
